@@ -62,7 +62,21 @@ void c19_probe_files(FILE *f, const char *scratch_dir);
 int c19_args_code(int prog, int env, int o1, int o2);
 void c19_probe_args(FILE *f);
 
+// ---- plan recorder (c19_main.c): what the real main() hands to coder_run(), in order
+#define C19_PLAN_MAX 64
+extern int c19_plan_n;
+extern char *c19_plan[C19_PLAN_MAX];     // malloc'ed; "\001S" = standard input, "\001R" = refused (stdin busy with the list), "\001E" = list read error
+void c19_plan_reset(void);
+void c19_plan_add(const char *s);
+extern jmp_buf c19_exit_jmp;             // tuklib_exit() longjmps here when armed
+extern bool c19_exit_armed;
+extern int c19_exit_code;
+void c19_args_reset(void);
+
 // ---- c19_exit.c (real main.c)
+// runs the real main() (renamed) with this argv; returns the status given to tuklib_exit(); the plan is in c19_plan
+int c19_run_main(int argc, char **argv);
+void c19_probe_main(FILE *f, const char *scratch_dir);
 void c19_exit_reset(void);
 int c19_exit_get(void);
 void c19_exit_set(int status);           // real set_exit_status()
